@@ -40,6 +40,9 @@ def dispatch(prop, tier, seed):
     if prop in ("C07", "C08"):
         from . import eng_handles
         return eng_handles.check(prop, tier, seed)
+    if prop in ("C03", "C17", "C18", "C20"):
+        from . import checks_cross
+        return checks_cross.check(prop, tier, seed)
     if prop == "C09":
         from . import eng_tee
         return eng_tee.check(prop, tier, seed)
